@@ -163,7 +163,7 @@ func (c09Sys) Step(s *c09State, l engine.Letter) (*c09State, string, *engine.Vio
 				alice := world.Addr("alice")
 				key := world.SecpKey("alice")
 				msgs := []sdk.Msg{
-					opchildtypes.NewMsgInitiateTokenWithdrawal(alice.String(), "l1recipient", sdk.NewInt64Coin(d.denom, 1)),
+					opchildtypes.NewMsgInitiateTokenWithdrawal(alice.String(), " l1 recipient\n", sdk.NewInt64Coin(d.denom, 1)),
 					banktypes.NewMsgSend(alice, world.Addr("bob"), sdk.NewCoins(sdk.NewInt64Coin(d.denom, 1_000_000))),
 				}
 				data = signHookTx(s.w, msgs, key, key.PubKey(), acc.GetAccountNumber(), acc.GetSequence(), ctx.ChainID())
@@ -220,7 +220,7 @@ func (c09Sys) Step(s *c09State, l engine.Letter) (*c09State, string, *engine.Vio
 		c.nextL2++
 		return c, "refunded", nil
 	case c09Withdraw:
-		msg := opchildtypes.NewMsgInitiateTokenWithdrawal(world.Addr(d.by).String(), "l1recipient", sdk.NewInt64Coin(d.denom, d.amt))
+		msg := opchildtypes.NewMsgInitiateTokenWithdrawal(world.Addr(d.by).String(), " l1 recipient\n", sdk.NewInt64Coin(d.denom, d.amt))
 		res := s.w.Deliver(ctx, msg)
 		if res.Panicked {
 			return c, "panic", viol("handler-panic", "InitiateTokenWithdrawal panicked: %s", res.PanicVal)
@@ -252,7 +252,7 @@ func (c09Sys) Step(s *c09State, l engine.Letter) (*c09State, string, *engine.Vio
 		if len(wevs) != 1 {
 			return c, "accepted", viol("withdrawal-announced-once", "%d withdrawal events", len(wevs))
 		}
-		if v := c09CheckWithdrawEvent(wevs[0], world.Addr(d.by).String(), "l1recipient", d.denom, base, d.amt, s.nextL2); v != nil {
+		if v := c09CheckWithdrawEvent(wevs[0], world.Addr(d.by).String(), " l1 recipient\n", d.denom, base, d.amt, s.nextL2); v != nil {
 			return c, "accepted", v
 		}
 		c.bal[d.by+"/"+d.denom] -= d.amt
